@@ -46,7 +46,8 @@ BtCreate(e) ==
     THEN [bt EXCEPT !.btTabs = IF \E j \in DOMAIN e.kinds : e.kinds[j] = "btree" THEN @ \cup {e.t} ELSE @,
                     !.meta = [x \in DOMAIN bt.meta \cup {e.t} |->
              IF x = e.t THEN [cs |-> {i - 1 : i \in {j \in DOMAIN e.kinds : e.kinds[j] = "btree" /\ e.cols[j] = "int"}},
-                              ff |-> {e.ff[i] : i \in DOMAIN e.ff}]
+                              ff |-> {e.ff[i] : i \in DOMAIN e.ff},
+                              sent |-> \E j \in DOMAIN e.cols : e.cols[j] = "svarchar"]
              ELSE bt.meta[x]]]
     ELSE bt
 BtWrites(t, vals) ==   \* vals: set of <<column, rank>> written to table t
@@ -67,8 +68,15 @@ BtKnown(t) == t \in bt.big /\ t \in bt.many
 (* stop happened (bt.crashed), and a later clean Shutdown + Reopen re-attached it (bt.stale).                        *)
 AttrTo(vs, kf) == [i \in DOMAIN vs |-> IF vs[i].kf = "new" /\ vs[i].tag \notin {"C14.pins"} /\ ~IsRangeTag(vs[i].tag)
                                         THEN [vs[i] EXCEPT !.kf = kf] ELSE vs[i]]
+(* Known finding KF-C06-varchar-sentinel: the engine marks "minus / plus infinity" of the string type IN-BAND, as the  *)
+(* strings 'SamehadaDBInfMinValue' / 'SamehadaDBInfMaxValue' (types.Value.SetInfMin / IsInfMin).  A stored string or a  *)
+(* literal equal to one of them is taken for the sentinel by every comparison: `c <= ''` returns the row holding         *)
+(* 'SamehadaDBInfMinValue', `c > 'b'` misses 'SamehadaDBInfMaxValue' ... Signature: the statement is on the dedicated    *)
+(* table whose column has the driver type "svarchar" (the only place where these two strings are used).                  *)
+SentTab(t) == t \in DOMAIN bt.meta /\ "sent" \in DOMAIN bt.meta[t] /\ bt.meta[t].sent
 Attr(vs, ts) ==
-  IF \E t \in ts : t \in bt.stale THEN AttrTo(vs, "KF-C10-btree-reattach-after-crash")
+  IF \E t \in ts : SentTab(t) THEN AttrTo(vs, "KF-C06-varchar-sentinel")
+  ELSE IF \E t \in ts : t \in bt.stale THEN AttrTo(vs, "KF-C10-btree-reattach-after-crash")
   ELSE IF \E t \in ts : BtKnown(t) THEN AttrTo(vs, "KF-C17-btree-ffff-stopper")
   ELSE vs
 
